@@ -28,7 +28,12 @@ def handle (j : Json) : Except String Json := do
     let sc := sums codeFace ts
     let se := sums exactFace ts
     let p := post sc rho cm
-    pure <| obj [("traced_volume", ofRat (sc.getD 0 0)), ("volume", ofRat (se.getD 0 0)),
+    let frame ← fldD j "frame" (jOpt (fun f => do
+      pure ((← fld f "R" (jList jRat)), (← fld f "p" (jList jRat))))) none
+    let fr := match frame with
+      | some (R, pp) => ofList (ofList ofRat) (frameTensor R pp p)
+      | none => Json.null
+    pure <| obj [("traced_volume", ofRat (sc.getD 0 0)), ("volume", ofRat (se.getD 0 0)), ("inertia_frame", fr),
       ("traced_sums", ofList ofRat sc), ("exact_sums", ofList ofRat se),
       ("mass", ofRat p.mass), ("center_mass", ofList ofRat p.centerMass),
       ("inertia", ofList (ofList ofRat) p.inertia)]
